@@ -123,6 +123,22 @@ Proof.
   - eapply del_after_add_partial; eassumption.
 Qed.
 
+(** what holds whatever the receipts are: every index entry proper is restored exactly, and so
+    is every address counter *)
+Lemma index_entries_exact c m b kA kD :
+  sorted m -> fresh c m b = true ->
+  exec_add c m b = Some kA -> exec_del c (write_all kA m) b = Some kD ->
+  forall k, plain k = true -> get k (write_all kD (write_all kA m)) = get k m.
+Proof. apply plain_restore. Qed.
+
+Lemma addr_counts_restored c m b kA kD :
+  sorted m -> counters_wf m = true ->
+  exec_add c m b = Some kA -> exec_del c (write_all kA m) b = Some kD ->
+  forall a, q_addr_count (write_all kD (write_all kA m)) a = q_addr_count m a.
+Proof.
+  intros S W EA ED a. apply (count_restore c m b kA kD S W EA ED). apply count_key_Q.
+Qed.
+
 (** without the mvcc plugin the removal never fails *)
 Lemma del_total_without_mvcc c m b : c_mvcc c = false -> exists kD, exec_del c m b = Some kD.
 Proof.
